@@ -155,7 +155,7 @@ func stmt(a *Act, expRet []byte, literal bool) (string, bool) {
 	case "sub", "gsub":
 		return "r = " + a.Op + "(" + reSrc(a.Re.Bytes(), literal) + ", " + hx.AwkString(a.Repl.Bytes()) + `, t) ""`, true
 	case "length":
-		return `r = length(t) ""`, true
+		return lengthStmt, true
 	case "int":
 		x, ok := numSrc(a.X)
 		if !ok {
@@ -168,6 +168,9 @@ func stmt(a *Act, expRet []byte, literal bool) (string, bool) {
 	}
 	return "", false
 }
+
+// length(t), cross-checked with the bare length of $0 (a different opcode)
+const lengthStmt = `r = length(t) ""; $0 = t; if ((length() "") != r) r = r "!=" length()`
 
 func clean(b []byte) bool { return bytes.IndexAny(b, "|\n") < 0 }
 
